@@ -103,10 +103,29 @@ impl<'w> FnTr<'w> {
             }
             return self.call_translated(e, &info, None, &args);
         }
-        // --- opaque associated function (listed in the target table with recv = "Self") ---
+        // --- opaque associated function (listed in the target table with recv = "Self" or the name of another type) ---
         if let What::Fn { opaque, .. } = &self.target.what {
-            if segs.len() == 2 && segs[0] == "Self" {
-                if let Some(o) = opaque.iter().find(|o| o.recv == "Self" && o.method == last) {
+            if segs.len() == 2 {
+                if let Some(o) = opaque.iter().find(|o| o.recv == segs[0] && o.method == last) {
+                    if segs[0] != "Self" {
+                        // `Zobrist::piece_square_hash(..)`: an opaque FUNCTION of the translated arguments
+                        if self.world.structs.contains_key(&segs[0]) || self.world.enums.contains_key(&segs[0]) { return Err(self.err(e, "opaque associated function of a registered type")); }
+                        if !(self.use_leafs.contains(&segs[0]) || self.use_glob) { return Err(self.err(e, "the type of this opaque associated function is not imported by a `use` in this file")); }
+                        let ret = self.opaque_ret(e, o.ret)?;
+                        let mut xs = vec![];
+                        let mut tys = vec![];
+                        for a in &args {
+                            let x = self.tr_expr(a, None)?;
+                            tys.push(x.ty.lean_atom());
+                            xs.push(x);
+                        }
+                        let name = format!("{}_{}", segs[0], last);
+                        let fty = RTy::Opaque(format!("{} → {}", tys.join(" → "), ret.lean()));
+                        let n = self.lparam(&name, fty, Origin::ParamMethod(usize::MAX, name.clone()), (usize::MAX - 1, 1, self.lparams.len()))?;
+                        let mut r = Ex::pure(format!("{} {}", n, xs.iter().map(|x| x.a()).collect::<Vec<_>>().join(" ")), ret);
+                        r.pure = xs.iter().all(|x| x.pure);
+                        return Ok(r);
+                    }
                     let ret = self.opaque_ret(e, o.ret)?;
                     let mut xs = vec![];
                     let mut tys = vec![];
@@ -135,6 +154,8 @@ impl<'w> FnTr<'w> {
         }
     }
 
+    pub fn call_translated_pub(&mut self, e: &Expr, info: &FnInfo, recv: Option<&Expr>, args: &[&Expr]) -> Res<Ex> { self.call_translated(e, info, recv, args) }
+
     /// `recv` = Some(receiver expression) for method calls (Rust parameter 0 of the callee is `self`)
     fn call_translated(&mut self, e: &Expr, info: &FnInfo, recv: Option<&Expr>, args: &[&Expr]) -> Res<Ex> {
         let has_self = info.rust_params.first().map(|s| s == "self").unwrap_or(false);
@@ -145,9 +166,20 @@ impl<'w> FnTr<'w> {
         if args.len() != expected_args { return Err(self.err(e, "wrong number of arguments")); }
         let mut out = vec![];
         let mut pure_args = true;
+        let mut inout_names: Vec<String> = vec![];
         for p in &info.params {
             match &p.origin {
                 Origin::Fuel => { self.needs_fuel = true; out.push(self.fuel_var.clone()); let f = self.fuel_var.clone(); self.note_use(&f); }
+                Origin::Param(i) if info.inout.contains(i) => {
+                    // `&mut S` parameter: the argument must be a mutable struct variable; the call statement rebinds it
+                    let a = rust_arg(*i).ok_or_else(|| self.err(e, "missing argument"))?;
+                    let n = path_ident(a).ok_or_else(|| self.err(e, "a `&mut` struct argument must be a variable"))?;
+                    let v = self.lookup(&n).cloned().ok_or_else(|| self.err(e, "unknown variable"))?;
+                    if !v.mutable || v.ty != p.ty { return Err(self.err(e, "a `&mut` struct argument must be a mutable variable of that struct type")); }
+                    self.note_use(&v.lean);
+                    inout_names.push(v.lean.clone());
+                    out.push(v.lean);
+                }
                 Origin::Param(i) => {
                     let a = rust_arg(*i).ok_or_else(|| self.err(e, "missing argument"))?;
                     let x = self.tr_expr(a, Some(&p.ty))?;
@@ -195,6 +227,12 @@ impl<'w> FnTr<'w> {
         }
         self.deps.insert(info.module.clone());
         let call = if out.is_empty() { info.lean.clone() } else { format!("{} {}", info.lean, out.join(" ")) };
+        if !info.inout.is_empty() {
+            // only as a statement of its own (`tr_call_stmt` rebinds the arguments)
+            if info.ret != RTy::Unit { return Err(self.err(e, "function with `&mut` struct parameters that also returns a value")); }
+            if !self.in_call_stmt { return Err(self.err(e, "a call with `&mut` struct arguments is only supported as a statement of its own")); }
+            self.last_inout = inout_names;
+        }
         Ok(Ex::monadic(call, info.ret.clone()))
     }
 
